@@ -56,7 +56,8 @@ if __name__ == "__main__":
         "Written by sub-agents that were given only the text of one property and a scratch worktree (nothing from "
         "/verif). `<ID>` is the first round, `<ID>b` a second round that was told the gist of the first change and "
         "asked for a different clause / code path, `<ID>c` a third round (histories, faults, input shapes, cooperating "
-        "edits), `<ID>d` a fourth (rarely used options, dtypes, orderings, numerical edges, environment). Each directory holds patch.diff (against /repo HEAD at the time), "
+        "edits), `<ID>d` a fourth (rarely used options, dtypes, orderings, numerical edges, environment), `<ID>e` a fifth (interactions of "
+        "two input classes, extreme values, id formats, missing / non-finite values, scale). Each directory holds patch.diff (against /repo HEAD at the time), "
         "the demonstration and meta.json; `tools/eval_seeded.py` re-confirms everything (tests survive, demo fails "
         "with / passes without, which checks alarm). None of these changes is ever committed to /repo.")
     if os.path.isdir(os.path.join(HERE, "mutants")):
